@@ -63,6 +63,15 @@ def show_cm(cm):
     args = []
     for a in cm.arguments:
         v = a.value
+        if isinstance(v, ast.ComponentClause) and a.redeclare and len(v.symbol_list) == 1:
+            sy = v.symbol_list[0]
+            dims = ";".join(",".join("None" if x is None else ser(x) for x in grp) for grp in sy.dimensions)
+            args.append("redeclare{%s|%s|%s|%s|%s|%s}" % (" ".join(v.prefixes), ".".join(v.type.to_tuple()), sy.name, dims,
+                                                          show_cm(sy.class_modification), sy.comment))
+            continue
+        if isinstance(v, ast.ShortClassDefinition) and a.redeclare:
+            args.append("redeclare-short{%s|%s|%s}" % (v.type, v.name, ".".join(v.component.to_tuple())))
+            continue
         if not isinstance(v, ast.ElementModification):
             args.append("?" + type(v).__name__)
             continue
